@@ -237,7 +237,9 @@ func (m *Morass) write() {
 	}
 
 	vstep(m, "write.presync", 0)
-	m.setErr(tf.Sync())
+	if err := tf.Sync(); err != nil {
+		m.setErr(err)
+	}
 	vstep(m, "write.synced", 0)
 }
 
